@@ -126,6 +126,9 @@ def header_branch(ctx):
             if r == ('HEADER_ARRAY_BYTES', None):
                 defs = [n.value for n in ast.walk(w.node) if isinstance(n, ast.Assign) and U(n.targets[0]) == U(s.value)
                         and fm.is_reachable(n)]
+                if not defs and not isinstance(s.value, ast.Name):
+                    from ..sizerules import expand_variants
+                    defs = expand_variants(w, s.value, reachable=fm.is_reachable)
                 if defs and all('len(geom.traces)' in U(d) for d in defs):
                     ctx.ok('C09.3', w, s.stmt, 'array length from len(geom.traces)')
                 else:
